@@ -58,6 +58,15 @@ pub fn bases_small() -> Vec<Ex> {
 		Ex::Arr(vec![Ex::Error(Box::new(s("E0"))), n(2.0), n(3.0)]),
 		stdcall("range", vec![n(-2.0), n(2.0)]),
 		Ex::Arr(vec![s("b"), s("a"), s("b")]),
+		// every lazy representation at its boundary sizes 0 and 1
+		stdcall("range", vec![n(5.0), n(5.0)]),
+		stdcall("range", vec![n(3.0), n(2.0)]),
+		stdcall("makeArray", vec![n(1.0), func(&["i"], n(8.0))]),
+		stdcall("makeArray", vec![n(0.0), func(&["i"], n(8.0))]),
+		stdcall("repeat", vec![Ex::Arr(vec![n(6.0)]), n(1.0)]),
+		Ex::Slice(Box::new(Ex::Arr(vec![n(1.0), n(2.0), n(3.0)])), Some(Box::new(n(1.0))), Some(Box::new(n(2.0))), None),
+		stdcall("reverse", vec![Ex::Arr(vec![n(4.0)])]),
+		stdcall("map", vec![func(&["x"], var("x")), Ex::Arr(vec![n(3.0)])]),
 	]
 }
 pub fn bases_big() -> Vec<Ex> {
